@@ -30,19 +30,48 @@ func genTokenHash(g *gen, repo string) {
 	// GetToken: `b := make(Token, N)`
 	gt := funcDecl(f, "", "GetToken")
 	tokLen := uint64(0)
+	tokVar := ""
 	ast.Inspect(gt.Body, func(n ast.Node) bool {
-		if c, ok := n.(*ast.CallExpr); ok && exprStr(c.Fun) == "make" && len(c.Args) == 2 && exprStr(c.Args[0]) == "Token" {
-			tokLen = intLit(c.Args[1])
+		if a, ok := n.(*ast.AssignStmt); ok && len(a.Lhs) == 1 && len(a.Rhs) == 1 {
+			if c, ok := a.Rhs[0].(*ast.CallExpr); ok && exprStr(c.Fun) == "make" && len(c.Args) == 2 && exprStr(c.Args[0]) == "Token" {
+				tokLen = intLit(c.Args[1])
+				tokVar = exprStr(a.Lhs[0])
+			}
 		}
 		return true
 	})
-	if tokLen == 0 {
-		fail("GetToken: `make(Token, N)` not found")
+	if tokLen == 0 || tokVar == "" {
+		fail("GetToken: `b := make(Token, N)` not found")
+	}
+	// one read of the random source per call, straight into the token that is returned; the function keeps nothing between calls
+	// (every identifier it mentions is local, a builtin or the package of the random source)
+	reads := 0
+	ast.Inspect(gt.Body, func(n ast.Node) bool {
+		switch x := n.(type) {
+		case *ast.CallExpr:
+			if exprStr(x.Fun) == "rand.Read" {
+				if len(x.Args) != 1 || exprStr(x.Args[0]) != tokVar {
+					fail("GetToken: rand.Read does not fill the token it returns")
+				}
+				reads++
+			}
+		case *ast.Ident:
+			switch x.Name {
+			case tokVar, "make", "Token", "rand", "Read", "err", "nil", "_":
+			default:
+				fail("GetToken: mentions `" + x.Name + "` (expected: one rand.Read into a fresh token, nothing kept between calls)")
+			}
+		}
+		return true
+	})
+	if reads != 1 {
+		fail("GetToken: not exactly one read of the random source per token")
 	}
 	var b strings.Builder
 	b.WriteString("namespace CoapVerif.Generated.TokenHash\n\n")
 	fmt.Fprintf(&b, "/-- hash/crc64: ISO (reflected polynomial), the table message.Token.Hash uses (shape of Hash read from the AST) -/\ndef crc64Poly : Nat := %d\n", uint64(crc64.ISO))
 	fmt.Fprintf(&b, "/-- message/getToken.go: GetToken draws this many random bytes -/\ndef randomTokenLen : Nat := %d\n", tokLen)
+	fmt.Fprintf(&b, "/-- message/getToken.go: GetToken reads the random source this many times per call, into the token it returns, and keeps nothing between calls -/\ndef readsPerToken : Nat := %d\n", reads)
 	fmt.Fprintf(&b, "/-- message.MaxTokenSize -/\ndef maxTokenSize : Nat := %d\n", message.MaxTokenSize)
 	// check values computed by the real function, used by the model's `crc64_check` theorem
 	t1 := message.Token{1, 2, 3, 4}
